@@ -1,16 +1,16 @@
 SPECIFICATION MCSpec
 CONSTANTS
- N = 3
- T = 2
+ N = 4
+ T = 3
  NV = 1
- Cmds = {1, 2, 3}
+ Cmds = {1, 2, 3, 4}
  RepostAppends = TRUE
  Defect = "none"
- Honest = {1, 2}
- Args <- ArgsCore
- ByzReqs <- Byz3
- MaxByz = 1
- Faults <- FApi
+ Honest = {1, 2, 3}
+ Args <- ArgsLive
+ ByzReqs <- ByzNone
+ MaxByz = 0
+ Faults <- FPost
  MaxFault = 1
  Tampers <- TAll
  MaxTamper = 1
